@@ -116,6 +116,8 @@ def event(seed: int) -> list:
                 ev["linkfree"] = False     # the clauses stated on the whole paragraph do not apply
             own = tgt.text_recursive
             ev["own"] = cps(own)
+            if tgt is par and not ev["linkfree"]:
+                ev["url"] = cps("http://example.org/")      # the address of every link the builders make
             found = []
             for s, e in tgt.search_all(rx):
                 found.append({"s": s, "e": e, "text": cps(tgt.text_at(s, e))})
